@@ -18,7 +18,7 @@ def family(ctx, tag, n, quick, bogus=True, faults=0, maxc=5, name="sim", **kw):
     return [D.to_scenario("%s/%s/%d" % (tag, name, k), sc, **kw) for k, sc in enumerate(pick(scripts, n, ctx.seed))]
 
 
-def forms_family(tag, n, what):
+def forms_family(tag, n, what, qos="reliable", conn=None, name=None):
     """canonical exhaustive family: every sequence of n chunks over {X, Y} x {full, alias} (what = "up") or over data ids {A, B} x {id, alias}
     (what = "id"), each chunk read and acknowledged before the next one is sent (send -> read -> ack tick), alias forms only after the
     corresponding full form was seen (the broker never guesses an alias). These are the canonical interleavings of Downstream.tla's BSend /
@@ -46,7 +46,7 @@ def forms_family(tag, n, what):
                               "id": a, "idF": "id" if f == "full" else "al", "idAl": 0 if f == "full" else 1})
             steps += [{"a": "read", "g": "R1"}, {"a": "ackTick"}]
         steps.append({"a": "close"})
-        scs.append(D.to_scenario("%s/forms-%s%d/%d" % (tag, what, n, k), steps, prereg=()))
+        scs.append(D.to_scenario("%s/%s/%d" % (tag, name or ("forms-%s%d" % (what, n)), k), steps, prereg=(), qos=qos, conn=conn))
     return scs
 
 
@@ -126,6 +126,9 @@ def run(pid="C04", mon="MonC04"):
     scs += forms_family(pid, 4, "up") + forms_family(pid, 4, "id") if quick else forms_family(pid, 5, "up") + forms_family(pid, 5, "id")
     if pid == "C03":
         scs += meta_family(pid)
+        # unreliable downstream over a transport with a separate unreliable path (chunks arrive on the datagram-like pipe)
+        scs += forms_family(pid, 3, "up", qos="unreliable", conn={"unreliable": True}, name="forms-up3-unreliable-path")
+        scs += forms_family(pid, 3, "up", qos="partial", name="forms-up3-partial")
     if pid == "C04":
         scs += backpressure_family(pid)
         scs += family(ctx, pid, 25 if quick else 300, quick, bogus=False, faults=1, maxc=5, name="resume",
